@@ -196,6 +196,10 @@ class Alg:
                 r = self.v_at(v, i)
             elif v[0] == "array" and i[0] == "int" and 0 <= i[1] < len(v[1]):
                 r = v[1][i[1]]
+            elif i == ("I",) and not self.has_EI(v):
+                # `xs[i]` at the iteration index of the enclosing summary is the element of xs: the same atom an
+                # iterator over xs produces (index loops and iterator chains agree)
+                r = ("E", v)
             else:
                 r = ("at", v, i)
         elif k == "field":
@@ -343,6 +347,25 @@ class Alg:
             return any(self.has_EI(a) for m, _ in t[1] for a, _ in m)
         return any(self.has_EI(x) for x in t[1:] if isinstance(x, tuple))
 
+    def literal_leaf_len(self, t, _seen=None):
+        if not isinstance(t, tuple) or not t:
+            return None
+        if _seen is None:
+            _seen = set()
+        if id(t) in _seen:
+            return None
+        _seen.add(id(t))
+        if t[0] == "E" and isinstance(t[1], tuple) and t[1] and t[1][0] == "array":
+            return len(t[1][1])
+        if t[0] in ("b", "B"):
+            return None
+        for x in (t[1:] if isinstance(t[0], str) else t):
+            if isinstance(x, tuple):
+                r = self.literal_leaf_len(x, _seen)
+                if r is not None:
+                    return r
+        return None
+
     def vsum(self, v):
         cv = self.vec(v)
         if cv[0] == "array":
@@ -352,6 +375,11 @@ class Alg:
             return acc
         if cv[0] == "V":
             body, n = cv[1], cv[2]
+            if not isinstance(n, int):
+                # a literal array among the iterated leaves fixes the length (it surfaced after a substitution)
+                L = self.literal_leaf_len(body)
+                if L is not None:
+                    n = L
             if isinstance(n, int) and 0 <= n <= 8:
                 # a sum of statically known small length is its explicit terms
                 acc = Poly()
